@@ -39,7 +39,11 @@ func (s *Sim) observeVote(n *Node, in *inst, v UVote, wire []byte) {
 	if own {
 		s.emitted[voteSha(v)] = true
 		s.stat("vote_originated", 1)
+		if !in.shadow {
+			s.tallyAdd(n.id, v)
+		}
 	}
+	s.rememberVote(v)
 	if n.adv {
 		return
 	}
@@ -66,6 +70,10 @@ func (s *Sim) observeVote(n *Node, in *inst, v UVote, wire []byte) {
 		}
 		if in.inc > 0 {
 			s.stat("vote_after_restart", 1)
+		}
+		if v.R.Step == stepCert && !in.shadow {
+			// a cert vote is only ever cast for a value that reached a soft quorum in that period
+			s.requireQuorum(n, "cert-vote", v.R.Round, v.R.Period, stepSoft, v.R.Proposal)
 		}
 		if wire != nil && !in.shadow {
 			if s.batchOwn == nil {
@@ -103,11 +111,20 @@ func (s *Sim) checkEmitValidity() bool {
 }
 
 func (s *Sim) onEmit(n *Node, in *inst, m outMsg, key string, dec any) {
+	if len(s.seenRaw) < 600 && s.step%3 == 0 {
+		s.seenRaw = append(s.seenRaw, m)
+	}
 	switch d := dec.(type) {
 	case UVote:
 		s.observeVote(n, in, d, m.data)
 	case UBundle:
 		s.stat("bundle_emitted", 1)
+		if len(s.seenBundles) < 400 {
+			s.seenBundles = append(s.seenBundles, d)
+		}
+		if !n.adv && m.bcast {
+			s.requireQuorum(n, "bundle-broadcast", d.Round, d.Period, d.Step, d.Proposal)
+		}
 		if !n.adv {
 			if _, err := RefBundleCheck(s, d); err != nil {
 				prop := "C06"
@@ -161,6 +178,10 @@ func (s *Sim) onEnsure(n *Node, in *inst, e ensureRec) {
 			s.canon[e.round] = b
 			s.canonCert[e.round] = e.cert
 		}
+	}
+	// C06: committing is the cert-quorum signal
+	if cb0, err := DecodeBundle(protocol.Encode(&e.cert)); err == nil {
+		s.requireQuorum(n, "commit", cb0.Round, cb0.Period, stepCert, cb0.Proposal)
 	}
 	// C03: independent certificate check
 	if e.block != nil && e.block.Round() != e.round {
@@ -218,7 +239,6 @@ func (s *Sim) nontrivial() bool {
 	return f > 0
 }
 
-func (s *Sim) craftAction(a, b, c int) {}
 
 // shadowCheck is C02's "persist before send" oracle: at the instant attest votes have left node n,
 // a fresh service started on a copy of n's crash DB (the durable image at this instant) must resume
@@ -286,4 +306,19 @@ func (s *Sim) shadowCheck(n *Node, sent []UVote) {
 		}
 	}
 	s.stat("shadow_reattest_ok", 1)
+}
+
+func (s *Sim) rememberVote(v UVote) {
+	if len(s.seenVotes) < 3000 {
+		s.seenVotes = append(s.seenVotes, v)
+	}
+	if !v.R.Proposal.IsBottom() {
+		l := s.values[v.R.Round]
+		for _, x := range l {
+			if x == v.R.Proposal {
+				return
+			}
+		}
+		s.values[v.R.Round] = append(l, v.R.Proposal)
+	}
 }
